@@ -161,7 +161,7 @@ def hdr_decode(h):
 
 # ================================ registry: header factory and registration table ===================
 
-@oset("at4.registry.header-factory", ["C03", "C04"], [REG + ":HeaderFactory.create_from_message", REG + ":HeaderFactory._packet_id"])
+@oset("at4.registry.header-factory", ["C03", "C04", "C01"], [REG + ":HeaderFactory.create_from_message", REG + ":HeaderFactory._packet_id"])
 def registry_header_factory(h):
     """Section 3.b: 0x80 0xb0 when sending, 0x90 0xb0 for the extended message (type 0x1F); 3.c: the
     message id can be any data - here a counter that must always fit the single id byte."""
